@@ -1,7 +1,7 @@
 (* C01 - readers load exactly what the file contains.  Statements only; proofs in Proofs/C01_*.v.
    tok_float / tok_int / pdg_valid / pdg_charge / usqrt are the oracles of DESIGN.md 4.4 (Python float(),
    int(), the `particle` package, numpy sqrt): universally quantified functions, no law assumed unless stated. *)
-From Coq Require Import List String ZArith QArith Qabs Bool Arith.
+From Coq Require Import List String Ascii ZArith QArith Qabs Bool Arith.
 From SX Require Import Lib.Strs Lib.StrLemmas Lib.Split Gen.GenParticleMap Model.Oscar Model.OscarDoc Model.Jetscape
   Model.JetscapeDoc Proofs.C01_Oscar Proofs.C01_Columns Proofs.C01_Shapes Proofs.C01_Std Proofs.C01_Jetscape
   Proofs.C01_Derived Proofs.C01_Example.
